@@ -1294,13 +1294,17 @@ func main() {
 			"enumerated by containerd's images.ChildrenHandler and labelled by BOTH real writer flavours; every layer descriptor's labels go through the matching real reader; 3 descriptors per manifest and flavour get every subset of <= 3 structural labels removed/corrupted plus 24 random subsets over all labels. "+
 			"non-trivial = the manifest has >= 2 layers and for at least one target a neighbour that HAS URLs was reconstructed and its URL pairing judged; distinct by the manifest description. "+
 			"Stage l3 (FUSE): produced labels are mounted by the real fs.Mount against an in-memory registry and the request log is judged.",
-		40, 2000, body)
+		80, 1500, body)
 }
 
 func body(r *vf.Run) {
 	debug.SetGCPercent(400) // the writers under test build labels by repeated string concatenation: mostly garbage
 	if r.Child == "l3" {
 		l3Child(r)
+		return
+	}
+	if r.Child == "conc" {
+		concChild(r)
 		return
 	}
 	if pf := os.Getenv("VERIF_C20_PROF"); pf != "" { // developer aid only
@@ -1343,6 +1347,8 @@ func body(r *vf.Run) {
 	}
 	r.Count("hosts_function_calls", c.hostCalls)
 	r.Logf("main stage done (%d manifests)", n)
+	concStage(r)
+	r.Logf("conc stage done")
 	l3Stage(r)
 	r.Logf("l3 stage done")
 	r.Assume("containerd v2.2.3 images.Children/IsLayerType, snapshots.FilterInheritedLabels, labels.Validate, reference.Parse and go-digest digest.Parse are the trusted definition of enumeration order, layer media types, label validity and well-formedness")
